@@ -17,15 +17,15 @@ theorem PhOK_sameAbs {s s' : St} (h : SameAbs s s') (q : List Grp) (j : Nat) (a 
 theorem MemOK_sameAbs {s s' : St} (h : SameAbs s s') (q : List Grp) (j : Nat) (G : Grp) (a : Agent) :
     MemOK P s' q j G a ↔ MemOK P s q j G a := by
   unfold MemOK
-  split <;> simp only [h.linked, PhOK_sameAbs h]
+  split <;> simp only [h.linked, h.hmode, PhOK_sameAbs h]
 
 theorem HeadOK_sameAbs {s s' : St} (h : SameAbs s s') (ℓ : Nat) (q : List Grp) (j : Nat) (a : Agent) :
     HeadOK W P s' ℓ q j a ↔ HeadOK W P s ℓ q j a := by
   unfold HeadOK
-  split <;> simp only [h.grpW W, PhOK_sameAbs h]
+  split <;> simp only [h.grpW W, PhOK_sameAbs h, E2, h.hmode]
 
 theorem lockInv_k0 {s : St} {ℓ : Nat} {q : List Grp} (hL : LockInv W P s ℓ q) (i : Nat) (a a' : Agent)
-    (hi : s.agents[i]? = some a) (habs : a'.abs = a.abs)
+    (hi : s.agents[i]? = some a) (habs : a'.abs = a.abs) (hdone : a.loc = .done → a'.loc = .done)
     (hmem : a'.loc.sMem = true → a.lk = ℓ → ∀ j G, q[j]? = some G → G.node = a.qnode → MemOK P s q j G a')
     (hhead : a'.loc.headMode.isSome → a.lk = ℓ → ∀ j G, q[j]? = some G → G.head = some i → HeadOK W P s ℓ q j a') :
     LockInv W P (setAgent s i a') ℓ q := by
@@ -34,12 +34,14 @@ theorem lockInv_k0 {s : St} {ℓ : Nat} {q : List Grp} (hL : LockInv W P s ℓ q
   have hq : a'.qnode = a.qnode := congrArg Abs.qnode habs
   have hhm : a'.loc.headMode = a.loc.headMode := congrArg Abs.hm habs
   have hsm : a'.loc.sMem = a.loc.sMem := congrArg Abs.sm habs
-  refine ⟨hL.nodup, ?_, ?_, ?_, hL.laterHeads, ?_, ?_, ?_⟩
+  refine ⟨hL.nodup, ?_, ?_, ?_, ?_, ?_, ?_, ?_, ?_⟩
   · rw [lockW_setAgent, hS.expLock W]; exact hL.lockWord
   · intro j G hj; rw [nodeW_setAgent, hS.expNode W]; exact hL.nodeWord j G hj
-  · intro G hG; rw [hS.cnt]; exact hL.nonempty G hG
-  · intro j G h hj hh
-    obtain ⟨b, hb, hb1, hb2, hb3, hb4⟩ := hL.heads j G h hj hh
+  · intro G hG; rw [hS.cnt, hS.hmode]; exact hL.nonempty G hG
+  · intro j G hj hj0; rw [hS.hmode]; exact hL.laterHeads j G hj hj0
+  · intro j G h hj hh hlive
+    rw [hS.hmode] at hlive
+    obtain ⟨b, hb, hb1, hb2, hb3, hb4⟩ := hL.heads j G h hj hh hlive
     by_cases hhi : h = i
     · subst hhi
       rw [hi] at hb; cases hb
@@ -48,6 +50,16 @@ theorem lockInv_k0 {s : St} {ℓ : Nat} {q : List Grp} (hL : LockInv W P s ℓ q
       exact hhead (by rw [hhm]; exact hb3) hb1 j G hj hh
     · refine ⟨b, by rw [agent_set_ne s i h a' hhi]; exact hb, hb1, hb2, hb3, ?_⟩
       rw [HeadOK_sameAbs hS]; exact hb4
+  · intro G hG h hh
+    obtain ⟨b, hb, hb1, hb2⟩ := hL.headish G hG h hh
+    by_cases hhi : h = i
+    · subst hhi
+      rw [hi] at hb; cases hb
+      refine ⟨a', agent_set_eq s h a a' hi, by rw [hlk]; exact hb1, ?_⟩
+      rcases hb2 with hb2 | hb2
+      · left; rw [hhm]; exact hb2
+      · right; exact hdone hb2
+    · exact ⟨b, by rw [agent_set_ne s i h a' hhi]; exact hb, hb1, hb2⟩
   · intro k b hk hb1 hb2
     rcases agent_set_cases s i k a a' b hi hk with ⟨rfl, rfl⟩ | ⟨_, hk'⟩
     · exact hL.headsBack k a hi (by rw [← hlk]; exact hb1) (by rw [← hhm]; exact hb2)
@@ -62,7 +74,8 @@ theorem lockInv_k0 {s : St} {ℓ : Nat} {q : List Grp} (hL : LockInv W P s ℓ q
       exact ⟨j, G, hj, hn, by rw [MemOK_sameAbs hS]; exact hm⟩
 
 theorem inv_k0 {pb cb : Nat} {s : St} {Q : Nat → List Grp} (hI : Inv W P pb cb s Q) (i : Nat) (a a' : Agent)
-    (hi : s.agents[i]? = some a) (habs : a'.abs = a.abs) (hpriv : a'.loc.priv = a.loc.priv)
+    (hi : s.agents[i]? = some a) (habs : a'.abs = a.abs) (hdone : a.loc = .done → a'.loc = .done)
+    (hpriv : a'.loc.priv = a.loc.priv)
     (htid : a'.tid < s.tls.length) (hidle : a'.loc ≠ .idle)
     (hprivW : (a'.loc = .sLoad ∨ a'.loc = .sCas → nodeW s a'.qnode = 0) ∧
               (∀ m, a'.loc = .xXchg m → nodeW s a'.qnode = W 0 true false 0))
@@ -84,7 +97,7 @@ theorem inv_k0 {pb cb : Nat} {s : St} {Q : Nat → List Grp} (hI : Inv W P pb cb
     · have := hI.wf a hmemA
       exact ⟨htid, by rw [hlk]; exact this.2.1, hidle, by rw [hhm]; exact this.2.2.2⟩
   · intro ℓ hℓ
-    apply lockInv_k0 (hI.locks ℓ hℓ) i a a' hi habs
+    apply lockInv_k0 (hI.locks ℓ hℓ) i a a' hi habs hdone
     · intro h1 h2; subst h2; exact hmem h1
     · intro h1 h2; subst h2; exact hhead h1
   · intro k b hk hb
